@@ -117,9 +117,10 @@ static void run_purity(uint64_t idx, pv_rng* rng) {
     pv_set_rand_prng();
     if (st != POLYSEED_OK) { pv_violation("C03/create-failed", "create(%u) -> %s", m.features, pv_status_name(st)); return; }
     bool ok = check_encode(a, &m, L, coin, "created");
-    /* (b) loaded */
+    /* (b) loaded; encoded once more while a different set of user features is enabled (the phrase depends on the seed only) */
     polyseed_data* b = pv_seed_from_model(&m);
     if (b) ok &= check_encode(b, &m, L, coin, "loaded");
+    if (b && idx % 3 == 0) { polyseed_enable_features(pv_randn(rng, 7)); ok &= check_encode(b, &m, L, coin, "other-feature-mask"); polyseed_enable_features(7); PV_COUNT("purity.encoded_under_other_feature_mask", 1); }
     /* (c) decoded from a phrase in another language */
     char ph[2048]; pv_m_encode(&m, L2, coin, ph, sizeof ph);
     char* in = pv_exact_str(ph); polyseed_data* c = NULL;
